@@ -62,6 +62,9 @@ FUNCS6C = [
     (F, None, None, "strip_nulls_jsonb", "strip_nulls_jsonb", None),
     (F, None, None, "build_array", "build_array", None),
     (F, None, None, "build_object", "build_object", None),
+    (F, None, None, "delete_jsonb_array_by_keypath", "delete_jsonb_array_by_keypath", "delkp"),
+    (F, None, None, "delete_jsonb_object_by_keypath", "delete_jsonb_object_by_keypath", "delkp"),
+    (F, None, None, "delete_by_keypath_jsonb", "delete_by_keypath_jsonb", None),
 ]
 
 # public functions of the shape `if !is_jsonb(value) { <text branch; returns> } <jsonb helper>(value)`: the text branch
@@ -453,6 +456,42 @@ class FnTr6c(FnTr5b):
         ls, t, ty = FnTr5b.user_call(self, sig, args, recv)
         return pre + ls, t, ty
 
+    # -- `match q.pop_front() { Some(pat) => .., _ => .. }`; or-patterns nested in `Some(..)` that bind the same names
+    def ctl_match(self, e, mode, want, M):
+        scrut = e.scrut
+        while scrut.kind == "paren":
+            scrut = scrut.e
+        if scrut.kind == "mcall" and scrut.name == "pop_front" and not scrut.args:
+            pl = self.place_of(scrut.recv)
+            if pl[0] != "var" or pl[2][0] != "deque":
+                raise Unsupported("pop_front on %s" % tystr4(pl[2]))
+            ety = ("opt", pl[2][1])
+            r, q = self.fresh(), lname(pl[1])
+            pre = ["let (%s, %s) := Rs.popFrontOpt %s" % (r, q, q)]
+            arms = [N("arm", pat=self.distribute_or(a.pat), guard=a.guard, body=a.body) for a in e.arms]
+            branches = []
+            for a in arms:
+                if a.guard is not None:
+                    raise Unsupported("guard on a match arm of `pop_front()`")
+                alts = a.pat.alts if a.pat.kind == "p_or" else [a.pat]
+                pats, binds = [], None
+                for alt in alts:
+                    p1, b1 = self.ctor_pattern(alt, ety, top=False)
+                    if binds is not None and b1 != binds:
+                        raise Unsupported("alternatives that bind different names")
+                    binds = b1
+                    pats.append(p1)
+                branches.append(dict(pat=" | ".join(pats), binds=binds or [], body=a.body))
+            ls, term, ty, div = self.finish_ctl(("match", [r]), [], branches, mode, want, M)
+            return pre + ls, term, ty, div
+        return FnTr5b.ctl_match(self, e, mode, want, M)
+
+    def distribute_or(self, p):
+        """`Some(A(x) | B(x))` -> `Some(A(x)) | Some(B(x))` (Lean has alternatives at the top of an arm only)"""
+        if p.kind == "p_ctor" and len(p.args) == 1 and p.args[0].kind == "p_or":
+            return N("p_or", alts=[N("p_ctor", path=p.path, args=[alt]) for alt in p.args[0].alts])
+        return p
+
     # -- `if <call with &mut places>.is_err() { x.clear(); .. }`
     def ctl(self, e, mode, want):
         if e.kind == "if" and e.els is None and mode == "stmt":
@@ -549,10 +588,9 @@ def _user_call3(self, sig, args, recv=None):
 HEADER = """-- GENERATED by tools/rs2lean6c.py from the Rust sources of the crate (src/*.rs); do not edit.
 -- Phase 6c: the renderer, the serde bridge and the remaining editors of functions.rs.  One block per translated
 -- function or recursive group (hoisted loop bodies `<fn>.loop<k>` first).  The meaning of every `Rs.*` / `Ctl.*`
--- name is in JsonbModel/RustPrelude.lean … RustPrelude4.lean, RustPrelude5a.lean and RustPrelude6c.lean; the
--- agreement theorems are in Proofs/TranslatedAgreeI*.lean.
-import JsonbModel.Generated.Translated4
-import JsonbModel.RustPrelude5a
+-- name is in JsonbModel/RustPrelude.lean … RustPrelude4.lean, RustPrelude5a.lean and RustPrelude6c.lean (the type
+-- `KeyPath` is declared in Generated/Translated5a.lean); the agreement theorems are in Proofs/TranslatedAgreeI*.lean.
+import JsonbModel.Generated.Translated5a
 import JsonbModel.RustPrelude6c
 
 set_option linter.unusedVariables false
@@ -648,6 +686,11 @@ def pass_fmt(lines, names):
 
 def generate(repo, prev_text):
     world = R5b.phase4_world(repo)
+    # `enum KeyPath` of keypath.rs is declared by phase 5a (Generated/Translated5a.lean, imported): registered here
+    try:
+        R3.emit_enum3(world, "src/keypath.rs", "KeyPath")
+    except Unsupported:
+        pass
     status = {}
     blocks = []
     prev = {m.group(1): m.group(2) for m in R.BLOCK_RE.finditer(prev_text or "")}
